@@ -25,6 +25,8 @@ def leq(e, g, close=False):
     if veq(e, g):
         return True
     if e[0] in _NUMK and g[0] in _NUMK:
+        if e[0] == 'int' and g[0] == 'int':
+            return False  # two ints are equal exactly or not at all (veq above): no promotion lies between them
         try:
             x, y = _numv(e), _numv(g)
             if x != x and y != y:
